@@ -151,7 +151,11 @@ def run(ctx):
     tasks = []
     for i in range(14 if quick else 120):
         tasks.append((rng.randrange(1 << 30), "toy" if i % 2 == 0 else "gendb", 6 if quick else 14))
-    runs = [r for out in par.pmap(_run_task, tasks) for r in out]
+    runs = [r for out in par.pmap(_run_task, tasks, timeout=600 if quick else 1500,
+                                  default=lambda t: [{"tid": f"watchdog/{t[0]}", "skip": "task killed by the watchdog (backend did not terminate)"}])
+            for r in out]
+    if par.TIMED_OUT:
+        ctx.parts["tasks_killed_by_watchdog"] = [repr(x) for x in par.TIMED_OUT]
     rows, meta, skipped = [], {}, 0
     for r in runs:
         if "skip" in r:
